@@ -113,7 +113,7 @@ class Unit:
         # but belong to the other unit's properties (props cleared)
         expanded = []
         for s in secs:
-            if s.kind != 'import':
+            if s.kind not in ('import', 'import_assumed'):
                 expanded.append(s)
                 continue
             other = parse_ctr(os.path.join(VERIF, 'units', s.args[0] + '.ctr'))
@@ -129,6 +129,9 @@ class Unit:
                 if found is None:
                     raise ExtractError('@@import: %s not found in unit %s' % (name, s.args[0]))
                 found.args = [a for a in found.args if not a.startswith('props=')]
+                if s.kind == 'import_assumed':
+                    # contract proved in unit s.args[0]; here only ASSUMED (modular verification across units)
+                    found.args.append('assumed_from=' + s.args[0])
                 expanded.append(found)
         secs = expanded
         for s in secs:
@@ -176,7 +179,7 @@ class Unit:
                 self.items.append(Item(s.args[1], 'type', txt, origin=sp.describe(), notes=notes))
             elif k == 'fn':
                 self.items.append(self._build_fn(s, False))
-                if canary:
+                if canary and not s.opt('assumed_from'):
                     c = self._build_fn(s, True)
                     self.items.append(c)
             elif k == 'lift':
@@ -198,7 +201,10 @@ class Unit:
                 raise ExtractError('bad @subst: ' + arg)
             old, new, why = m.group(1), m.group(2), m.group(4) or ''
             if txt.count(old) < 1:
-                raise ExtractError('@subst anchor lost in %s: `%s`' % (s.args[1], old))
+                # the code no longer contains the site this rewrite was written for: go on without it and let the
+                # verifier decide (a non-verification error from Verus then yields UNDECIDED, never VIOLATION)
+                notes.add('LOST-ANCHOR', '@subst `%s`' % old)
+                continue
             txt = txt.replace(old, new)
             notes.add('SUBST', '`%s` => `%s` (%s)' % (old, new, why))
             if item is not None:
@@ -223,7 +229,19 @@ class Unit:
         txt = apply_rules(txt, rules, notes, self.extra_log_macros)
         txt = self._apply_substs(txt, s, notes)
         rewritten = txt
-        txt, has_contract = weave(txt, s, notes, canary)
+        assumed = s.opt('assumed_from')
+        if assumed:
+            s2 = Section('fn', s.args, s.lineno)
+            s2.subs = [x for x in s.subs if x[0] in ('requires', 'ensures', 'subst')]
+            fo0, bo0 = _fn_sig_parts(txt, mask_text(txt))
+            orig_body = txt[bo0:]
+            txt, has_contract = weave(txt, s2, notes, False)
+            bo = txt.rfind(orig_body)
+            if bo < 0:
+                raise ExtractError('import_assumed: cannot locate body of ' + qual)
+            txt = '#[verifier::external_body]\n' + txt[:bo] + '{ unimplemented!() /* body verified in unit %s */ }' % assumed
+        else:
+            txt, has_contract = weave(txt, s, notes, canary)
         if canary:
             # a renamed COPY of the function with `ensures false` appended: it must fail to verify
             txt = re.sub(r'\bfn\s+' + re.escape(fn) + r'\b', 'fn ' + fn + '__canary', txt, count=1)
@@ -491,6 +509,21 @@ def weave(txt, s, notes, canary=False):
                 if inpos is None:
                     raise ExtractError('@loop %d: cannot name iterator in %s' % (k, s.args[1]))
                 inserts.append((inpos, largs[1] + ': '))
+        elif name == 'wrap':
+            # `EXPR` -> `{ let w__ = EXPR; proof { BODY } w__ }`  (pure insertion around the expression; BODY may mention w__)
+            anc = _anchor(arg)
+            pos = -1
+            start = body_open
+            for _ in range(nth):
+                pos = txt.find(anc, start)
+                if pos < 0:
+                    break
+                start = pos + 1
+            if pos < 0:
+                notes.add('LOST-ANCHOR', '@wrap `%s`' % anc)
+                continue
+            inserts.append((pos, '{ let w__ = '))
+            inserts.append((pos + len(anc), '; proof { ' + ' '.join(body.split()) + ' } w__ }'))
         elif name == 'before_stmt':
             anc = _anchor(arg)
             pos = -1
